@@ -4,11 +4,12 @@
    A connection, as a handler sees it, is a list of pending segments (one Read
    returns at most one - possibly partial - segment) followed by a terminal
    behaviour:
-     TEof      client closed: every further Read returns (0, io.EOF)
-     TZero     drained listener.DummyUDPConn: every further Read returns (0, nil)
-               (listener/udp_conn.go:30-34)
+     TEof      client closed, or the datagram of listener.DummyUDPConn is consumed:
+               every further Read returns (0, io.EOF)  (listener/udp_conn.go, since the
+               fix "DummyUDPConn.Read reports end of stream once the datagram is consumed")
      TTimeout  silent client: every further Read returns (0, timeout) after one idle
                deadline (server/timeout_conn.go; 30 s in server/honeytrap.go)
+   An empty segment is a Read that returns (0, nil) once.
    The meter counts what the handler did on the connection; it is what the
    harness observes on the real code.
 
@@ -19,7 +20,7 @@
 From HT Require Import Common.Bytes.
 Open Scope Z_scope.
 
-Inductive term := TEof | TZero | TTimeout.
+Inductive term := TEof | TTimeout.
 Inductive rerr := ENone | EEOF | ETimeout | ENoProgress | EBufFull.
 
 Record meter := mkM {
@@ -51,7 +52,6 @@ Definition cread (c : conn) (n : nat) : bytes * rerr * conn :=
   | [] =>
       match c_term c with
       | TEof => ([], EEOF, mkConn [] TEof (tick_read (c_m c) false false true))
-      | TZero => ([], ENone, mkConn [] TZero (tick_read (c_m c) true false false))
       | TTimeout => ([], ETimeout, mkConn [] TTimeout (tick_read (c_m c) false true false))
       end
   | s :: r =>
@@ -85,7 +85,12 @@ Definition res0 := mkRes 0 0 0.
 Definition res_add (a b : res) := mkRes (r_gor a + r_gor b) (r_lis a + r_lis b) (r_fds a + r_fds b).
 Definition res_scale (n : Z) (a : res) := mkRes (n * r_gor a) (n * r_lis a) (n * r_fds a).
 
-Record hres := mkH { h_out : outcome; h_conn : conn; h_res : res }.
+Definition res_sub (a b : res) := mkRes (r_gor a - r_gor b) (r_lis a - r_lis b) (r_fds a - r_fds b).
+
+(* h_res: what is still held when Handle is over; h_late: the part of it that sits on a
+   timer of its own and goes away within one passive-socket timeout without anybody's help *)
+Record hres := mkH4 { h_out : outcome; h_conn : conn; h_res : res; h_late : res }.
+Definition mkH (o : outcome) (c : conn) (r : res) : hres := mkH4 o c r res0.
 
 (* ------------------------------------------------------------------ *)
 (* io.Copy(dst, src) with the generic 32 KiB buffer loop; [wr]: dst is the connection *)
@@ -396,7 +401,7 @@ Definition handle_tftp (fuel : nat) (c : conn) : hres :=
           | ENone =>
               let '(_, e3, b3) := bread b2 512 in
               match e3 with
-              | ENone => mkH Returned (cwrite (b_c b3) 5) res0    (* no matching buffer *)
+              | ENone | EEOF => mkH Returned (cwrite (b_c b3) 5) res0   (* an empty last block is data too; no matching buffer *)
               | _ => mkH Returned (b_c b3) res0
               end
           | _ => mkH Returned (b_c b2) res0
@@ -497,10 +502,10 @@ Record ftp_st := mkF {
   f_user : bool;          (* conn.user <> "" *)
   f_req : bytes;          (* conn.reqUser *)
   f_data : dsock;
-  f_gor : Z;              (* goroutines started and not finished *)
-  f_lis : Z;              (* passive listeners opened (none is ever closed by the code) *)
-  f_dconns : Z;           (* accepted data connections not closed *)
-  f_dirs : Z              (* directory handles opened by ListDir (never closed by the code) *)
+  f_gor : Z;              (* goroutines started and not finished: event pump, Accept goroutines *)
+  f_lis : Z;              (* passive listeners open *)
+  f_dconns : Z;           (* accepted data connections open *)
+  f_pwaits : N            (* passive-socket timeouts (30 s each) waited out by data commands *)
 }.
 
 Definition s_anonymous : bytes := [97;110;111;110;121;109;111;117;115]%N.
@@ -593,32 +598,37 @@ Definition classify (c : bytes) : fcmd :=
   else if in_list u ftp_known then FUnmodelled
   else FUnknown.
 
-Inductive fstep := FGo (s : ftp_st) | FClosed (s : ftp_st) | FBlock (s : ftp_st) | FPanic (s : ftp_st) | FOut.
+Inductive fstep := FGo (s : ftp_st) | FClosed (s : ftp_st) | FPanic (s : ftp_st) | FOut.
 
-(* [v6]: the local address is IPv6 (its String() contains ':'); [dial]: what the client does
-   with every passive port announced.  The service always has a certificate (storage
-   generates one), so the passive listener is a TLS listener: the first Write on the data
-   connection starts a handshake and waits for the client's hello, without any deadline. *)
-Definition open_passive (dial : dialmode) (s : ftp_st) : ftp_st :=
-  (* net.ListenTCP + go Accept(): one listener, one goroutine until a client connects, then
-     one accepted connection.  A socket still referenced by conn.dataConn is simply
-     forgotten. *)
-  if connected dial
-  then mkF (f_user s) (f_req s) (DPassive dial) (f_gor s) (f_lis s + 1) (f_dconns s + 1) (f_dirs s)
-  else mkF (f_user s) (f_req s) (DPassive dial) (f_gor s + 1) (f_lis s + 1) (f_dconns s) (f_dirs s).
+Definition set_data (s : ftp_st) (d : dsock) (g l dc : Z) : ftp_st :=
+  mkF (f_user s) (f_req s) d (f_gor s + g) (f_lis s + l) (f_dconns s + dc) (f_pwaits s).
 
+(* ftpPassiveSocket.Close(): closes the listener (which ends a pending Accept; the Accept
+   goroutine closes the listener itself when it ends), waits for that goroutine, closes an
+   accepted connection *)
 Definition close_data (s : ftp_st) : ftp_st :=
   match f_data s with
-  | DPassive DialNone | DNone => mkF (f_user s) (f_req s) DNone (f_gor s) (f_lis s) (f_dconns s) (f_dirs s)
-  | DPassive _ => mkF (f_user s) (f_req s) DNone (f_gor s) (f_lis s) (f_dconns s - 1) (f_dirs s)
+  | DNone => s
+  | DPassive DialNone => set_data s DNone (-1) (-1) 0
+  | DPassive _ => set_data s DNone 0 0 (-1)
   end.
 
-(* ListDir: os.Open(dir) without Close (services/ftp/ftpfs.go:52-66) *)
-Definition list_dir (s : ftp_st) : ftp_st :=
-  mkF (f_user s) (f_req s) (f_data s) (f_gor s) (f_lis s) (f_dconns s) (f_dirs s + 1).
+(* [v6]: the local address is IPv6 (its String() contains ':'); [dial]: what the client does
+   with every passive port announced.  PASV/EPSV first close a socket still referenced by
+   conn.dataConn, then net.ListenTCP (Accept deadline 30 s) + go Accept(): one listener and
+   one goroutine until a client connects or the deadline passes; a client that connects
+   leaves one accepted connection (deadline 30 s) and no listener.  The service always has
+   a certificate (storage generates one), so the listener is a TLS listener: the first Write
+   on the data connection starts a handshake and waits for the client's hello. *)
+Definition open_passive (dial : dialmode) (s : ftp_st) : ftp_st :=
+  let s := close_data s in
+  if connected dial then set_data s (DPassive dial) 0 0 1 else set_data s (DPassive dial) 1 1 0.
 
 Definition set_user (s : ftp_st) (u : bool) (req : bytes) : ftp_st :=
-  mkF u req (f_data s) (f_gor s) (f_lis s) (f_dconns s) (f_dirs s).
+  mkF u req (f_data s) (f_gor s) (f_lis s) (f_dconns s) (f_pwaits s).
+
+Definition pwait (s : ftp_st) : ftp_st :=
+  mkF (f_user s) (f_req s) (f_data s) (f_gor s) (f_lis s) (f_dconns s) (f_pwaits s + 1).
 
 Definition ftp_cmd (v6 : bool) (dial : dialmode) (s : ftp_st) (line : bytes) : fstep * N (* replies written *) :=
   let '(c, p) := parse_line line in
@@ -641,12 +651,11 @@ Definition ftp_cmd (v6 : bool) (dial : dialmode) (s : ftp_st) (line : bytes) : f
              else if v6 then (FGo (open_passive dial s), 1%N)
              else (FGo s, 1%N)                                  (* no ':' in the address: 425 *)
   | FList => if negb (f_user s) then (FGo s, 1%N)
-             else let s := list_dir s in
-                  match f_data s with
-                  | DNone => (FGo s, 2%N)                       (* 150, 226 *)
-                  | DPassive DialKnock => (FGo (close_data s), 2%N)   (* handshake fails at once; socket closed; 226 *)
-                  | DPassive DialNone => (FBlock s, 1%N)        (* wg.Wait() for a client that never comes *)
-                  | DPassive DialHold => (FBlock s, 1%N)        (* TLS handshake waits for a hello that never comes *)
+             else match f_data s with                           (* 150, data, socket closed, 226 *)
+                  | DNone => (FGo s, 2%N)
+                  | DPassive DialKnock => (FGo (close_data s), 2%N)          (* handshake fails at once *)
+                  | DPassive DialNone => (FGo (close_data (pwait s)), 2%N)   (* Accept deadline passes *)
+                  | DPassive DialHold => (FGo (close_data (pwait s)), 2%N)   (* handshake read deadline passes *)
                   end
   end.
 
@@ -665,7 +674,6 @@ Fixpoint ftp_loop (fuel : nat) (v6 : bool) (dial : dialmode) (s : ftp_st) (b : b
           match st with
           | FGo s' => ftp_loop f v6 dial s' b2
           | FClosed s' => (Returned, s', b2)
-          | FBlock s' => (Blocked, s', b2)
           | FPanic s' => (Panicked, s', b2)
           | FOut => (Unmodelled, s, b2)
           end
@@ -673,22 +681,31 @@ Fixpoint ftp_loop (fuel : nat) (v6 : bool) (dial : dialmode) (s : ftp_st) (b : b
       end
   end.
 
-(* Handle: go func() { for msg := range s.recv {...} }() - s.recv is never closed *)
+(* Handle: recv := make(chan string); defer close(recv); go func() { for msg := range recv ... }() *)
 Definition ftp_init : ftp_st := mkF false [] DNone 1 0 0 0.
 
-Definition ftp_res (o : outcome) (s : ftp_st) : res :=
-  (* a handler that never returns keeps its own goroutine *)
-  mkRes (match o with Blocked => f_gor s + 1 | _ => f_gor s end) (f_lis s) (f_lis s + f_dconns s + f_dirs s).
+(* when Handle is over (also by a panic: the deferred close(recv) runs) the pump ends *)
+Definition ftp_res (s : ftp_st) : res :=
+  mkRes (f_gor s - 1) (f_lis s) (f_lis s + f_dconns s).
+
+(* what a recovered panic leaves behind is an unconnected passive socket: its Accept deadline
+   ends the goroutine, which closes the listener *)
+Definition ftp_late (o : outcome) (s : ftp_st) : res :=
+  match o, f_data s with
+  | Panicked, DPassive DialNone => mkRes 1 1 1
+  | _, _ => res0
+  end.
 
 Definition handle_ftp_st (v6 : bool) (dial : dialmode) (fuel : nat) (c : conn) : outcome * ftp_st * brd :=
   ftp_loop fuel v6 dial ftp_init (bwrite (new_reader c) 0).       (* 220 banner *)
 
 Definition handle_ftp (v6 : bool) (dial : dialmode) (fuel : nat) (c : conn) : hres :=
   let '(o, s, b') := handle_ftp_st v6 dial fuel c in
-  mkH o (b_c b') (ftp_res o s).
+  mkH4 o (b_c b') (ftp_res s) (ftp_late o s).
 
 (* ------------------------------------------------------------------ *)
-(* services/smtp: smtp.go Handle (pump goroutine: for { select {...} } without exit),
+(* services/smtp: smtp.go Handle (pump goroutine: for { select { case <-done: return ... } },
+   done closed by a defer when Handle is over),
    conn.go state machine.  The service always has a certificate (storage generates one):
    EHLO announces STARTTLS.  STARTTLS and DATA/BDAT bodies are outside the model. *)
 Inductive sstate := SHello | SLoop | SMail.
@@ -761,7 +778,7 @@ Fixpoint smtp_loop (fuel : nat) (st : sstate) (i : N) (b : brd) : outcome * brd 
 Definition handle_smtp (fuel : nat) (c : conn) : hres :=
   let b := bwrite (new_reader c) 0 in                               (* 220 banner *)
   let '(o, b') := smtp_loop fuel SHello 0 b in
-  mkH o (b_c b') (mkRes 1 0 0).
+  mkH o (b_c b') res0.
 
 (* ------------------------------------------------------------------ *)
 (* dispatch *)
@@ -784,9 +801,12 @@ Definition handle (s : scn) (fuel : nat) (c : conn) : hres :=
 (* enough fuel for every loop that has a bound at all *)
 Definition fuel_for (c : conn) : nat := weight c + 4.
 
+(* what stays for good: held when Handle is over and on no timer *)
+Definition kept (h : hres) : res := res_sub (h_res h) (h_late h).
+
 (* history: N sequential connections to one service instance; resources add up *)
 Fixpoint history (s : scn) (cs : list conn) : res :=
   match cs with
   | [] => res0
-  | c :: r => res_add (h_res (handle s (fuel_for c) c)) (history s r)
+  | c :: r => res_add (kept (handle s (fuel_for c) c)) (history s r)
   end.
